@@ -1,9 +1,9 @@
 package props
 
 import (
-	"sync"
 	"fmt"
 	"strings"
+	"sync"
 	"time"
 
 	"simworld/h"
